@@ -36,7 +36,8 @@ def stale_signature(before_spec, after_spec, op):
         return "C01:stale:shared-job"
     # D27: a usage pattern that exists outside the system (taken out of `system.usage_patterns`) keeps loading the
     # servers, storages and networks it shares with the system
-    if any(set(sp["patterns"]) - set(sp["system"]["usage_patterns"]) for sp in (before_spec, after_spec)):
+    outside_after = set(after_spec["patterns"]) - set(after_spec["system"]["usage_patterns"])
+    if any(sp["system"].get("removed") for sp in (before_spec, after_spec)) or (outside_after and op.get("kind") != "system"):
         return "C01:stale:usage-pattern-outside-the-system"
     if op["op"] == "setlink" and op.get("attr") == "usage_journey" and not history.journey_jobs(
             before_spec, before_spec["patterns"][op["name"]]["usage_journey"]):
@@ -225,6 +226,11 @@ def corner_ops(rng, spec, guarded):
     lone = lone_job_move(spec, rng)
     if lone:
         ops.append(lone)
+    # a server moved to a storage that no server uses
+    free_st = sorted(st_ for st_ in spec["storages"] if all(sv_["storage"] != st_ for sv_ in spec["servers"].values()))
+    svs_r = sorted(s_ for s_ in spec["servers"] if s_ in reach_all)
+    if free_st and svs_r:
+        ops.append({"op": "setlink", "kind": "servers", "name": rng.choice(svs_r), "attr": "storage", "target": rng.choice(free_st)})
     # a usage pattern taken out of the system, or put (back) into it
     sys_pats = spec["system"]["usage_patterns"]
     outside = [p for p in spec["patterns"] if p not in sys_pats and spec["patterns"][p]["devices"]]
@@ -386,6 +392,7 @@ def edit_vs_rebuild_shard(args):
                     undo = dict(op, items=e[op["attr"]])
                 if not guarded or not ((op["op"] == "setlink" and op["attr"] == "usage_journey" and not history.journey_jobs(live.spec, live.spec["patterns"][op["name"]]["usage_journey"]))
                                        or (op.get("attr") == "uj_steps" and not history.journey_jobs(live.spec, op["name"]))):
+                    spec_before_undo = copy.deepcopy(live.spec)
                     st2, err2 = live.apply(undo)
                     hist_ops.append(undo)
                     out["undo_checks"] += 1
@@ -398,7 +405,11 @@ def edit_vs_rebuild_shard(args):
                             sens |= {"__system__"}
                         why = sysoracles.obs_diff(sysoracles.drop_objects(a, sens), sysoracles.drop_objects(b, sens))
                         if why:
-                            out["violations"].append({"signature": f"C01:undo-does-not-restore:{lab}", "detail": why,
+                            # the undo is an edit like any other: when it meets the trigger of a known finding (unguarded
+                            # histories: re-pointing away from a journey without jobs, D3; shared jobs, D2; …) it carries that signature
+                            usig = stale_signature(spec_before_undo, live.spec, undo)
+                            out["violations"].append({"signature": f"C01:undo-does-not-restore:{lab}" if usig == f"C01:stale-after-{op_label(undo)}" else usig,
+                                                      "detail": why,
                                                       "replay": {"spec": spec, "ops": list(hist_ops)}})
                             break
         out["hashes"].append(sysoracles_hash(spec, hist_ops))
@@ -637,7 +648,16 @@ def fixed_point_shard(args):
             with watchdog(60):
                 if i % 2 == 1 and history.has_shared_job(spec):
                     spec = specgen.unshare_jobs(spec)
+                if i % 4 == 1:
+                    sp2 = specgen.plant_corners(spec, rng)       # incl. a usage pattern outside the system, a spare server …
+                    if specgen.spec_is_safe(sp2, realsys.unit_info) and not history.has_shared_job(sp2):
+                        spec = sp2
                 live = Live(spec)
+                outside_ = [p for p in live.spec["patterns"] if p not in live.spec["system"]["usage_patterns"]]
+                if i % 4 == 1 and outside_:
+                    # the system's own input edited by plain assignment: one more usage pattern
+                    live.apply({"op": "setlist", "kind": "system", "name": "__system__", "attr": "usage_patterns",
+                                "items": live.spec["system"]["usage_patterns"] + [outside_[0]]})
                 whatifs = []
                 for k_ in range(rng.randint(0, 3)):
                     # in every other case the history starts with an edit aimed at a corner (reordered steps, …)
